@@ -1355,14 +1355,19 @@ class Evaluator(CallMixin, StmtMixin):
             self.bind_target(g.target, var, e)
             # describe value-dependent filter conditions without forking
             cond_atoms: List[Any] = []
-            self.run.path.capture = cond_atoms
-            try:
-                for c in g.ifs:
-                    v = self.eval(c)
-                    if isinstance(v, SBool):
-                        cond_atoms.append((v.atom, "truthy"))
-            finally:
-                self.run.path.capture = None
+            if g.ifs:
+                # evaluated on a throw-away clone of the element: capturing must not leave facts on the real one
+                probe_var = _clone_value(var)
+                self.bind_target(g.target, probe_var, e)
+                self.run.path.capture = cond_atoms
+                try:
+                    for c in g.ifs:
+                        v = self.eval(c)
+                        if isinstance(v, SBool):
+                            cond_atoms.append((v.atom, "truthy"))
+                finally:
+                    self.run.path.capture = None
+                    self.bind_target(g.target, var, e)
             if True:
                 conds = [norm(c) for c in g.ifs]
                 mark = len(self.run.effects)
@@ -1371,7 +1376,10 @@ class Evaluator(CallMixin, StmtMixin):
                 l.pytype = pytype
                 l.__dict__["elt_effects"] = self.run.effects[mark:]
                 l.__dict__["cond_atoms"] = cond_atoms
+                l.__dict__["cond_var"] = probe_var if g.ifs else var
                 l.__dict__["cond_nodes"] = list(g.ifs)
+                l.__dict__["target_node"] = g.target
+                l.__dict__["frame_env"] = self.frame.env
                 l.__dict__["identity"] = is_identity
                 return l
             var = self.generic_element(it, g.target, e)
@@ -1488,6 +1496,20 @@ class Evaluator(CallMixin, StmtMixin):
                     self.assign(t, v, node or target)
             return
         raise self.unmodelled("assignment target", node or target)
+
+
+def _clone_value(v: Any) -> Any:
+    if isinstance(v, SObj):
+        o = SObj(v.name, v.kinds, v.origin)
+        o.meta = dict(v.meta)
+        o.elem_of = v.elem_of
+        o.known, o.excluded, o.in_sets = v.known, set(v.excluded), dict(v.in_sets)
+        return o
+    if isinstance(v, SList) and v.mode == "concrete":
+        l = SList("concrete", [_clone_value(i) for i in v.items])
+        l.pytype = v.pytype
+        return l
+    return v
 
 
 class _K:
